@@ -971,6 +971,7 @@ package memberlist
 //@   safety [C09,C20]
 //@   requires ok: mlNet(m)
 //@ func (*Memberlist).resolveAddr(m, hostStr)
+//@   trusted    // DNS / address parsing: outside the verified subset (no membership state is touched); Join only uses its results as dial targets
 //@   modular
 //@   requires ok: mlNet(m)
 
